@@ -58,9 +58,27 @@ pub const C08_SIGS: &[(&str, &str, &str, &str)] = &[
     ("errctx-nested", "", "o: option<error-context>, l: list<error-context>", "result<u32, error-context>"),
 ];
 
-pub const C08_VARIANTS: &[(&str, &[&str])] = &[("ss", &[]), ("as", &["--async=import:f"]), ("sa", &["--async=export:g"]), ("aa", &["--async=import:f,export:g"])];
+/// (variant, generator flags, shape). Shape `false`: the export is the world-level function `g`.
+/// Shape `true`: the export is `g`, a static function of resource `r` in the exported interface
+/// `e` (the canonical names of its `task.return`, callback and entry point carry the resource).
+pub const C08_VARIANTS: &[(&str, &[&str], bool)] = &[
+    ("ss", &[], false),
+    ("as", &["--async=import:f"], false),
+    ("sa", &["--async=export:g"], false),
+    ("aa", &["--async=import:f,export:g"], false),
+    ("ra", &["--async=export:verif:c08/e#[static]r.g"], true),
+    ("raa", &["--async=import:f,export:verif:c08/e#[static]r.g"], true),
+];
+/// (import module, name) under which the export of a shape resolves its `task.return`
+pub fn c08_task_return(shape: bool) -> (&'static str, &'static str) {
+    if shape { ("[export]verif:c08/e", "[task-return][static]r.g") } else { ("[export]$root", "[task-return]g") }
+}
 
 pub fn c08_wit(i: usize) -> String {
+    c08_wit_shape(i, false)
+}
+
+pub fn c08_wit_shape(i: usize, shape: bool) -> String {
     let (_, decls, params, result) = C08_SIGS[i];
     let ret = if result.is_empty() { String::new() } else { format!(" -> {result}") };
     let uses: Vec<&str> = decls
@@ -75,6 +93,9 @@ pub fn c08_wit(i: usize) -> String {
         })
         .collect();
     let use_line = if uses.is_empty() { String::new() } else { format!("  use t.{{{}}};\n", uses.join(", ")) };
+    if shape {
+        return format!("package verif:c08;\n\ninterface t {{\n  {decls}\n}}\n\ninterface e {{\n{use_line}  resource r {{\n    g: static func({params}){ret};\n  }}\n}}\n\nworld w {{\n  import t;\n{use_line}  import f: func({params}){ret};\n  export e;\n}}\n");
+    }
     format!("package verif:c08;\n\ninterface t {{\n  {decls}\n}}\n\nworld w {{\n  import t;\n{use_line}  import f: func({params}){ret};\n  export g: func({params}){ret};\n}}\n")
 }
 
